@@ -68,6 +68,7 @@ func init() {
 		for k := 0; k < 3; k++ {
 			add(fmt.Sprintf("v%d.SetByIndex(%s)", i, []string{"0", "len", "len+2"}[k]), 'x', i, 0, k)
 		}
+		add(fmt.Sprintf("v%d.SetByIndex(len+2); v%d.GetByIndex(len).SetAsInteger(fresh)", i, i), 'g', i, 0, 0)
 		add(fmt.Sprintf("v%d.SetLength(len+2)", i), 'l', i, 0, 2)
 		add(fmt.Sprintf("v%d.SetLength(0)", i), 'l', i, 0, 0)
 		add(fmt.Sprintf("v%d.Clear()", i), 'z', i, 0, 0)
@@ -323,6 +324,20 @@ func c20Run(c *mon.Case, ops string) {
 						s.model[i].val = snap(s.real[i])
 					}
 				}
+			case 'g':
+				// grow by two padded slots and one written slot, then mutate the first padded slot in
+				// place: the padded slots are new objects owned by this array alone, so each must be its own null
+				if s.real[i] == nil || s.model[i].val.T != "A" || s.model[i].tainted {
+					skip = true
+					return
+				}
+				n := len(s.model[i].val.E)
+				v, r := s.freshElem()
+				s.real[i].SetByIndex(n+2, r)
+				s.model[i].val.E = append(s.model[i].val.E, vNull(), vNull(), v)
+				s.fresh++
+				s.real[i].GetByIndex(n).SetAsInteger(2000 + s.fresh)
+				s.model[i].val.E[n] = vInt(2000 + s.fresh)
 			case 'z':
 				if s.real[i] == nil {
 					skip = true
